@@ -15,7 +15,7 @@
 
   Strings are `List Char`.  A `&mut` environment becomes a returned `Env`; an error keeps the
   environment reached so far (assignments made by `${x=w}` before the error persist, as in Rust).
-  Not modelled: command substitution, arithmetic expansion, pathname expansion
+  Not modelled: command substitution, pathname expansion
   (the harness runs with `set -f`), `LINENO`-style quirks.  Trim patterns are matched by the C04
   model of yash-fnmatch (`YashModel.Fnmatch.Model`: parser with bracket expressions, translation
   to a regular expression, leftmost-first search, literal fast path) — composed, not re-modelled.
@@ -23,6 +23,7 @@
   characters) come from `YashModel.Generated.ExpansionTables`, re-extracted from /repo on every run.
 -/
 import YashModel.Fnmatch.Model
+import YashModel.Arith.Shell
 import YashModel.Generated.ExpansionTables
 namespace YashModel.Expansion
 
@@ -316,6 +317,8 @@ mutual
     | bs (c : Char)
     /-- `RawParam` (modifier `none`) or `BracedParam` -/
     | param (p : Param) (m : Modifier)
+    /-- `Arith { content }`: `$((…))` -/
+    | arith (content : Text)
   inductive Text
     | nil
     | cons (u : TextUnit) (t : Text)
@@ -471,11 +474,25 @@ def trimApply (pat : List PatChar) (side : TrimSide) (len : TrimLen) : Value →
 
 /-! ## Initial expansion (`initial/{slice,word,text,param}.rs`) -/
 
+/-- `arith.rs` `ArithError` by class, as `convert_error_cause` maps the causes of yash-arith (the two token errors
+    `InvalidNumericConstant` / `InvalidCharacter` are one class of the C03 model) -/
+inductive ArithErr
+  | syntax (e : Arith.SynErr)
+  | nonPortable
+  | eval (e : Arith.EvalErr)
+  /-- not produced (`Arith.evalStr_never_panics`) -/
+  | model
+  deriving DecidableEq, Repr
+
 inductive Err
   | unsetParameter
   | vacant (v : Vacancy) (msg : Option (List Char))
   | nonassignable (v : Vacancy)
   | readOnly (v : Vacancy)
+  /-- `ErrorCause::ArithError` -/
+  | arith (e : ArithErr)
+  /-- `AssignReadOnly` raised by an assignment inside `$((…))` (`vacancy: None`) -/
+  | arithReadOnly
   deriving DecidableEq, Repr
 
 abbrev Res := Env × Except Err Phrase
@@ -555,6 +572,42 @@ def finishParam (env : Env) (willSplit : Bool) (p : Param) (value : Option Value
   let phrase := intoPhrase value
   if !willSplit && p == .star then .field (phrase.ifsJoin env) else phrase
 
+/-! ### Arithmetic expansion (`initial/arith.rs`) on top of the yash-arith model of C03 -/
+
+/-- `impl yash_arith::Env for VarEnv` on this area's environment — the adapter to the interface `Arith.EnvI` of C03:
+    `get_variable` is `get_scalar` (an unset or array variable is `None`, an error under `set -u`); `assign_variable`
+    is `get_or_create_variable(name, Global).assign(value)`, i.e. `Env.assign` (read-only → error) -/
+def arithI : Arith.EnvI Env where
+  get := fun env name =>
+    match env.getScalar (String.ofList name) with
+    | some v => .ok (some v)
+    | none => if env.nounset then .error .getVariableError else .ok none
+  assign := fun env name v =>
+    match env.assign (String.ofList name) v with
+    | some env' => .ok env'
+    | none => .error .assignVariableError
+
+/-- `i64::to_string` -/
+def intChars (v : Int) : List Char := (toString v).toList
+
+/-- `convert_error_cause` -/
+def errOfArith : Arith.ShErr → Err
+  | .syntax e => .arith (.syntax e)
+  | .portability => .arith .nonPortable
+  | .eval .getVariableError => .unsetParameter
+  | .eval .assignVariableError => .arithReadOnly
+  | .eval e => .arith (.eval e)
+  | _ => .arith .model
+
+/-- `arith::expand` after the content has been expanded to the expression text: `eval_with_config` (the C03 model
+    `Arith.evalStrG` over `arithI`, portable mode off) and the value as the characters of a soft expansion.  The
+    environment after a failing evaluation is the one before it (assignments made before the failing operator are not
+    modelled: C03 does not observe them either). -/
+def arithEval (env : Env) (src : List Char) : Res :=
+  match Arith.evalStrG arithI false src env with
+  | .ok (v, env') => (env', .ok (.field (toField (intChars v))))
+  | .error e => (env, .error (errOfArith e))
+
 def Text.isNil : Text → Bool
   | .nil => true
   | _ => false
@@ -569,6 +622,11 @@ mutual
     | .lit c => (env, .ok (.char { value := c, origin := .literal, isQuoted := false, isQuoting := false }))
     | .bs c => (env, .ok (.field [quoteChar '\\', quotedLit c]))
     | .param p m => expandParam env willSplit p (resolve env p) m
+    | .arith t =>
+      -- `expand_text(env.inner, text)`: a fresh `initial::Env` (will_split = true), `ifs_join`, quote removal
+      match (if t.isNil then (env, .ok Phrase.oneEmptyField) else expandTextGo env true Phrase.zeroFields t) with
+      | (env', .error e) => (env', .error e)
+      | (env', .ok ph) => arithEval env' (removeQuotesAndStrip (ph.ifsJoin env'))
 
   /-- `impl Expand for ParamRef` -/
   def expandParam (env : Env) (willSplit : Bool) (p : Param) (value : Option Value) : Modifier → Res
@@ -692,6 +750,59 @@ def expandTextJoined (env : Env) (t : Text) : Env × Except Err (List Char) :=
   match (if t.isNil then (env, .ok Phrase.oneEmptyField) else expandTextGo env true Phrase.zeroFields t) with
   | (env', .error e) => (env', .error e)
   | (env', .ok ph) => (env', .ok (removeQuotesAndStrip (ph.ifsJoin env')))
+
+/-! ## Tilde prefixes in a lexed word (`yash-syntax/src/parser/lex/tilde.rs`) -/
+
+def Word.toList : Word → List WordUnit
+  | .nil => []
+  | .cons u w => u :: w.toList
+
+def Word.ofList : List WordUnit → Word
+  | [] => .nil
+  | u :: us => .cons u (Word.ofList us)
+
+/-- the loop of `parse_tilde` over the units after the tilde: unquoted literals extend the name; a slash ends it
+    (`followed_by_slash`), a colon ends it when `delimit_at_colon`; any other unit means "no tilde expansion" -/
+def parseTildeGo (colon : Bool) : List WordUnit → List Char → Nat → Option (Nat × List Char × Bool)
+  | [], name, count => some (count, name, false)
+  | .unq (.lit c) :: rest, name, count =>
+    if c == '/' then some (count, name, true)
+    else if c == ':' && colon then some (count, name, false)
+    else parseTildeGo colon rest (name ++ [c]) (count + 1)
+  | _ :: _, _, _ => none
+
+/-- `parse_tilde(units, delimit_at_colon)`: number of units consumed, name, followed by a slash -/
+def parseTilde (units : List WordUnit) (colon : Bool) : Option (Nat × List Char × Bool) :=
+  match units with
+  | .unq (.lit '~') :: rest => parseTildeGo colon rest [] 1
+  | _ => none
+
+/-- `Word::parse_tilde_front` -/
+def parseTildeFront (units : List WordUnit) : List WordUnit :=
+  match parseTilde units false with
+  | some (len, name, slash) => .tilde name slash :: units.drop len
+  | none => units
+
+def isColonUnit : WordUnit → Bool
+  | .unq (.lit ':') => true
+  | _ => false
+
+/-- the loop of `parse_tilde_everywhere_after` on `units[i..]`: a tilde prefix at `i` (name ended by `/`, `:` or the
+    end) is replaced; then the search continues after the next unquoted colon -/
+def parseTildeEverywhereGo : Nat → List WordUnit → List WordUnit
+  | 0, us => us
+  | fuel + 1, us =>
+    let (head, tail) : List WordUnit × List WordUnit :=
+      match parseTilde us true with
+      | some (len, name, slash) => ([.tilde name slash], us.drop len)
+      | none => ([], us)
+    match tail.findIdx? isColonUnit with
+    | none => head ++ tail
+    | some k => head ++ tail.take (k + 1) ++ parseTildeEverywhereGo fuel (tail.drop (k + 1))
+
+/-- `Word::parse_tilde_everywhere_after(index)` (assignment values: `index` = the unit after `=`) -/
+def parseTildeEverywhereAfter (index : Nat) (units : List WordUnit) : List WordUnit :=
+  units.take index ++ parseTildeEverywhereGo (units.length + 1) (units.drop index)
 
 /-! ## The braced-parameter lexer (`yash-syntax/src/parser/lex/{braced_param,modifier}.rs`)
 
